@@ -49,6 +49,10 @@ ASSUMPTIONS = {
 
 # ----------------------------------------------------------------------------- data
 
+def table_rows(scn):
+    return max(NMAX, int(scn.get('nmax', 256)))
+
+
 def tables(scn):
     # the three tables are drawn one after the other from one generator, so their content depends on the number of rows drawn: a scenario
     # records it ('nmax'; replay files written before the tables grew to 1024 rows have none and mean 256)
@@ -58,7 +62,7 @@ def tables(scn):
     raw_f = g.standard_normal((n, MMAX))
     raw_d = g.integers(0, 1 << 16, (n, WMAX))
     if n < NMAX:
-        pad = NMAX - n
+        pad = NMAX - n      # (nmax > NMAX: the tables simply have more rows)
         raw_t = np.concatenate([raw_t, np.zeros((pad, MMAX), raw_t.dtype)])
         raw_f = np.concatenate([raw_f, np.zeros((pad, MMAX))])
         raw_d = np.concatenate([raw_d, np.zeros((pad, WMAX), raw_d.dtype)])
@@ -76,6 +80,7 @@ def make_data(scn):
     """(traces (NMAX', m), data (NMAX', *wshape)) - rows are addressed by the ops' ranges."""
     raw_t, raw_f, raw_d = tables(scn)
     m = scn['m']
+    NR = table_rows(scn)
     td = np.dtype(scn['tdtype'])
     if scn['regime'] == 'exact':
         amp = scn['amp']
@@ -92,18 +97,18 @@ def make_data(scn):
         # the standard attack layout (guesses x bytes, thousands of data words): own table, rows limited to what the history uses
         nrows = max(o[2] for o in scn['ops'] if o[0] == 'u')
         gd = rng.np_stream(scn['table_seed'], 'bigwords')
-        d = np.zeros((NMAX, W), dtype=pool.dtype)
+        d = np.zeros((NR, W), dtype=pool.dtype)
         d[:nrows] = pool[gd.integers(0, len(pool), (nrows, W))]
     elif scn['regime'] == 'exact':
         d = pool[raw_d[:, :W] % len(pool)]
     else:
-        i = np.arange(NMAX)[:, None] + np.arange(W)[None, :]
+        i = np.arange(NR)[:, None] + np.arange(W)[None, :]
         d = pool[i % len(pool)]
     ddt = scn.get('ddtype') or ('uint8' if pool.max() <= 255 and pool.min() >= 0 else 'uint16')
     d = d.astype(ddt)
     if scn.get('classes') is None and scn['kind'] in kinds.CLASS_BASED:
         d[first_accepted_row(scn), :] = pool.max()
-    data = d.reshape((NMAX,) + tuple(scn['wshape']))
+    data = d.reshape((NR,) + tuple(scn['wshape']))
     return relayout(traces, scn.get('tlayout', 'C')), relayout(data, scn.get('dlayout', 'C'))
 
 
@@ -194,6 +199,11 @@ def gen_history(seed, tier, prop, kinds_allowed):
                           (r.randint(300, 1000), 0.5 if numba_kind else 4.0)])   # batches of several hundred rows: counters / sums kept in a narrow integer type wrap
     else:
         n = r.randint(24, 96)
+    hs = rng.stream(seed, 'huge')
+    if regime == 'exact' and hs.random() < (0.015 if numba_kind else 0.06):
+        # more rows than any block size a buffered implementation is likely to use (512 / 1024 / 2048)
+        n = hs.randint(1025, 3000)
+        scn['nmax'] = 4096
     wide = thorough and kind in ('anova', 'nicv', 'snr', 'mia', 'ttacc') and r.random() < 0.05
     m = 64 if wide else _weighted(r, [(1, 1), (r.randint(2, 4), 4), (r.randint(5, 8), 2)])
     if not wide and numba_kind and kind != 'tbuild' and rng.stream(seed, 'mwide').random() < 0.07:
@@ -527,7 +537,7 @@ def precondition(scn):
     ups = [o for o in scn['ops'] if o[0] == 'u']
     if not ups:
         return False
-    if any(o[2] <= o[1] or o[2] > NMAX for o in ups):
+    if any(o[2] <= o[1] or o[2] > table_rows(scn) for o in ups):
         return False
     if scn['m'] < 1 or not exact_ok(scn):
         return False
